@@ -18,18 +18,20 @@ import (
 	"golang.org/x/tools/go/packages"
 	"golang.org/x/tools/go/ssa"
 	"golang.org/x/tools/go/ssa/ssautil"
+
+	"kverif/internal/an"
 )
 
 const ModPath = "github.com/segmentio/kafka-go"
 
 // Config selects the build configuration and the source tree to analyse.
 type Config struct {
-	Dir     string            // repository root
-	Tags    string            // e.g. "unsafe"
-	GOARCH  string            // "" = host
-	Overlay map[string][]byte // absolute path -> replacement contents (mutants, canaries)
-	Light   bool              // dependencies from export data (no bodies outside the module)
-	Patterns []string         // default ./...
+	Dir      string            // repository root
+	Tags     string            // e.g. "unsafe"
+	GOARCH   string            // "" = host
+	Overlay  map[string][]byte // absolute path -> replacement contents (mutants, canaries)
+	Light    bool              // dependencies from export data (no bodies outside the module)
+	Patterns []string          // default ./...
 }
 
 // Program is the loaded, type-checked module with SSA.
@@ -41,12 +43,13 @@ type Program struct {
 	Prog    *ssa.Program
 	SSA     map[string]*ssa.Package // module packages by path
 	NPkgAll int
+	Canon   *an.Canon // canonical names (renames of parameters, locals and unexported functions are looked through)
 
-	cgOnce sync.Once
-	cg     *callgraph.Graph
-	chaOnce sync.Once
-	chaG    *callgraph.Graph
-	allFns map[*ssa.Function]bool
+	cgOnce   sync.Once
+	cg       *callgraph.Graph
+	chaOnce  sync.Once
+	chaG     *callgraph.Graph
+	allFns   map[*ssa.Function]bool
 	declOnce sync.Once
 	decls    map[*types.Func]*ast.FuncDecl
 }
@@ -120,7 +123,15 @@ func Load(cfg Config) (*Program, error) {
 			p.SSA[pk.PkgPath] = sp
 		}
 	}
+	p.Canon = an.BuildCanon(prog, p.allModuleFunctions())
 	return p, nil
+}
+
+// Release drops per-program tables held outside the Program (so that it can be garbage collected).
+func (p *Program) Release() {
+	if p != nil && p.Prog != nil {
+		an.ReleaseCanon(p.Prog)
+	}
 }
 
 // Pkg returns the module package with the given path relative to the module root ("" = root).
@@ -171,6 +182,18 @@ func (p *Program) AllFunctions() map[*ssa.Function]bool {
 // ModuleFunctions returns source functions (with bodies) defined in the module, sorted by name.
 func (p *Program) ModuleFunctions() []*ssa.Function {
 	var out []*ssa.Function
+	for _, fn := range p.allModuleFunctions() {
+		// functions that did not exist at review time are analysed where they are called (an.EachInstr)
+		if !an.IsNew(fn) {
+			out = append(out, fn)
+		}
+	}
+	return out
+}
+
+// allModuleFunctions includes the functions that did not exist at review time.
+func (p *Program) allModuleFunctions() []*ssa.Function {
+	var out []*ssa.Function
 	for fn := range p.AllFunctions() {
 		if fn.Blocks != nil && InModule(fn) && fn.Synthetic == "" {
 			out = append(out, fn)
@@ -201,6 +224,34 @@ func (p *Program) CHA() *callgraph.Graph {
 // Func finds a function or method by a readable name relative to a module package:
 // "name", "(*T).m", "(T).m" or "T.m" (either receiver form accepted for the last).
 func (p *Program) Func(rel, name string) *ssa.Function {
+	if fn := p.funcByName(rel, name); fn != nil {
+		return fn
+	}
+	// renamed but otherwise unchanged: re-identified by the canonical-name table
+	sp := p.SSAPkg(rel)
+	if sp == nil {
+		return nil
+	}
+	path := sp.Pkg.Path()
+	var full []string
+	if !strings.Contains(name, ".") {
+		full = []string{path + "." + name}
+	} else {
+		n := strings.TrimPrefix(name, "(")
+		n = strings.TrimPrefix(n, "*")
+		i := strings.Index(n, ".")
+		tname, mname := strings.TrimSuffix(n[:i], ")"), n[i+1:]
+		full = []string{"(*" + path + "." + tname + ")." + mname, "(" + path + "." + tname + ")." + mname}
+	}
+	for _, f := range full {
+		if fn := an.LookupRenamed(p.Prog, f); fn != nil {
+			return fn
+		}
+	}
+	return nil
+}
+
+func (p *Program) funcByName(rel, name string) *ssa.Function {
 	sp := p.SSAPkg(rel)
 	if sp == nil {
 		return nil
@@ -284,7 +335,7 @@ func FuncName(fn *ssa.Function) string {
 	if fn == nil {
 		return "<nil>"
 	}
-	s := fn.String()
+	s := an.RefFuncString(fn)
 	s = strings.ReplaceAll(s, ModPath+"/", "")
 	s = strings.ReplaceAll(s, ModPath, "kafka")
 	return s
